@@ -1,7 +1,7 @@
 (* C09 — property theorems only.  Each is closed by `exact` of a lemma of C09_Proofs*.v. *)
 From Coq Require Import List NArith ZArith Bool.
-From Dae Require Import C09_Spec C09_Model C09_Check C09_ProofsF C09_ProofsP C09_Proofs C09_ProofsC C09_ProofsW C09_ProofsK C09_ProofsS C09_ProofsT.
-From Dae.gen Require Import C09_Route C09_TcpOwn.
+From Dae Require Import C09_Spec C09_Model C09_Check C09_ProofsF C09_ProofsP C09_Proofs C09_ProofsC C09_ProofsW C09_ProofsK C09_ProofsS C09_ProofsT C09_ProofsR.
+From Dae.gen Require Import C09_Route C09_TcpOwn C09_Pref.
 Import ListNotations.
 Open Scope N_scope.
 
@@ -148,6 +148,32 @@ Theorem C09_tcp_shared_message_refuted :
     tcache_ok cache = true /\ tcache_ok (t_cache (trun false q0 todo cache evs)) = false.
 Proof. exact C09_tcp_shared_message_refuted_proof. Qed.
 Print Assumptions C09_tcp_shared_message_refuted.
+
+(* ip_version_prefer: the preference wait is a rendezvous between the resolutions of the two address types
+   of one name.  For every ordering of the two upstream answers and every outcome of the wait (released by
+   the preferred answer in time, timed out, nothing to wait for), every content of the two answers (empty,
+   non-empty, any rcode), the message released to each resolution is the response to ITS OWN question
+   (pref_returns_own is extracted from applyPreferenceWait: every return gives back the response it was
+   given), so the reply and the cache entry of each type carry their own (name, type) question and only
+   records of answers to it. *)
+Theorem C09_preference_wait_own_response :
+  forall o cN cP mN mP,
+    fres_tagged (FMsg mN) = true -> question_checked (cq_q cN) mN = true -> q_class (cq_q cN) = 1 ->
+    fres_tagged (FMsg mP) = true -> question_checked (cq_q cP) mP = true -> q_class (cq_q cP) = 1 ->
+    pref_ok cN (pref_release pref_returns_own o mN mP) = true /\
+    pref_ok cP (pref_release pref_returns_own o mP mN) = true.
+Proof. exact C09_preference_wait_own_response_proof. Qed.
+Print Assumptions C09_preference_wait_own_response.
+
+(* Returning the preferred family's response to the waiting non-preferred resolution is refutable: the A
+   client gets (and the A key caches) an AAAA message. *)
+Theorem C09_preference_wait_swap_refuted :
+  exists o cN cP mN mP,
+    fres_tagged (FMsg mN) = true /\ question_checked (cq_q cN) mN = true /\ q_class (cq_q cN) = 1 /\
+    fres_tagged (FMsg mP) = true /\ question_checked (cq_q cP) mP = true /\ q_class (cq_q cP) = 1 /\
+    pref_ok cN (pref_release false o mN mP) = false.
+Proof. exact C09_preference_wait_swap_refuted_proof. Qed.
+Print Assumptions C09_preference_wait_swap_refuted.
 
 (* ---- forwarder lifecycle (cachedDnsForwarder) ------------------------------------------------ *)
 
